@@ -17,6 +17,8 @@ import (
 	"context"
 	"fmt"
 	"math"
+	"runtime/debug"
+	"strings"
 	"sync/atomic"
 
 	"github.com/bradenaw/juniper/iterator"
@@ -525,7 +527,8 @@ func checkRuns(in []int, e [3]int) *viol {
 					break
 				}
 				got = append(got, x)
-				lim := starts[j] + len(got)
+				// the k-th item of a run is the (start+k-1)-th source item: nothing beyond it is needed yet
+				lim := starts[j] + len(got) - 1
 				if lim > len(in)+1 {
 					lim = len(in) + 1
 				}
@@ -961,6 +964,69 @@ func checkPeekOnPeek(in []int) *viol {
 	return nil
 }
 
+// checkStatefulCallbacks: While and Filter with a predicate whose answer depends on WHEN it is asked
+// (false exactly at its j-th invocation). While ends there and stays ended, whatever the predicate
+// would say later; Filter drops exactly that item.
+func checkStatefulCallbacks(in []int) *viol {
+	atomic.AddInt64(&cases, 1)
+	ctx := context.Background()
+	for j := 0; j <= len(in); j++ {
+		calls := 0
+		pred := func(int) bool { calls++; return calls != j+1 }
+		wantWhile := in
+		if j < len(in) {
+			wantWhile = in[:j]
+		}
+		var wantFilter []int
+		for i, x := range in {
+			if i != j {
+				wantFilter = append(wantFilter, x)
+			}
+		}
+		calls = 0
+		it := iterator.While[int](&cIter{items: in}, pred)
+		var g1 []int
+		for {
+			x, ok := it.Next()
+			if !ok {
+				break
+			}
+			g1 = append(g1, x)
+		}
+		for k := 0; k < 3; k++ {
+			if x, ok := it.Next(); ok {
+				return &viol{"end-not-sticky-or-extra-output/While", fmt.Sprintf("iterator.While over %v with a predicate that is false only at its invocation #%d yielded %d after it had reported the end", in, j+1, x)}
+			}
+		}
+		calls = 0
+		st := stream.While[int](cStream{&cIter{items: in}}, func(_ context.Context, x int) (bool, error) { return pred(x), nil })
+		var g2 []int
+		for {
+			x, err := st.Next(ctx)
+			if err != nil {
+				break
+			}
+			g2 = append(g2, x)
+		}
+		for k := 0; k < 3; k++ {
+			if x, err := st.Next(ctx); err != stream.End {
+				return &viol{"end-not-sticky-or-extra-output/While", fmt.Sprintf("stream.While over %v with a predicate that is false only at its invocation #%d returned (%d,%v) after it had reported the end", in, j+1, x, err)}
+			}
+		}
+		if !eqInts(g1, wantWhile) || !eqInts(g2, wantWhile) {
+			return &viol{"wrong-output/While", fmt.Sprintf("While over %v with a predicate false at invocation #%d: iterator %v, stream %v, want %v", in, j+1, g1, g2, wantWhile)}
+		}
+		calls = 0
+		f1 := iterator.Collect(iterator.Filter[int](&cIter{items: in}, pred))
+		calls = 0
+		f2, err := stream.Collect(ctx, stream.Filter[int](cStream{&cIter{items: in}}, func(_ context.Context, x int) (bool, error) { return pred(x), nil }))
+		if !eqInts(f1, wantFilter) || !eqInts(f2, wantFilter) || err != nil {
+			return &viol{"wrong-output/Filter", fmt.Sprintf("Filter over %v with a predicate false at invocation #%d: iterator %v, stream %v (%v), want %v", in, j+1, f1, f2, err, wantFilter)}
+		}
+	}
+	return nil
+}
+
 func checkPeek(in []int) *viol {
 	atomic.AddInt64(&cases, 1)
 	// all Peek/Next patterns: before every Next, 0..2 Peeks
@@ -1000,6 +1066,14 @@ func checkPeek(in []int) *viol {
 		}
 	}
 	return nil
+}
+
+func firstLines(s string, n int) string {
+	lines := strings.Split(s, "\n")
+	if len(lines) > n {
+		lines = lines[:n]
+	}
+	return strings.Join(lines, "\n")
 }
 
 func seqs(alpha, maxLen int) [][]int {
@@ -1071,6 +1145,13 @@ func main() {
 	// single combinators
 	vx.Parallel(len(inputs), func(i int) {
 		in := inputs[i]
+		// a panic inside a combinator is a verdict ("produces exactly the sequence ... for every input"),
+		// not a crash of the check
+		defer func() {
+			if p := recover(); p != nil {
+				report(&viol{"panic", fmt.Sprintf("a combinator panicked on input %v: %v\n%s", in, p, firstLines(string(debug.Stack()), 14))}, map[string]any{"input": in})
+			}
+		}()
 		for _, c := range combs {
 			report(checkInt(c.name, c.ref, c.it, c.st, c.sl, c.need, in), map[string]any{"combinator": c.name, "input": in})
 		}
@@ -1089,6 +1170,7 @@ func main() {
 		report(checkReducersAndConstructors(in), map[string]any{"input": in})
 		report(checkPeek(in), map[string]any{"combinator": "WithPeek", "input": in})
 		report(checkPeekOnPeek(in), map[string]any{"combinator": "WithPeek over a Peekable", "input": in})
+		report(checkStatefulCallbacks(in), map[string]any{"combinator": "While/Filter with a stateful predicate", "input": in})
 		if len(in) <= 5 {
 			for k := 1; k <= 3; k++ {
 				if k == 3 && len(in) > 4 {
@@ -1120,6 +1202,11 @@ func main() {
 	}
 	vx.Parallel(len(pcombs), func(i int) {
 		a := pcombs[i]
+		defer func() {
+			if p := recover(); p != nil {
+				report(&viol{"panic", fmt.Sprintf("a pipeline starting with %s panicked: %v\n%s", a.name, p, firstLines(string(debug.Stack()), 14))}, map[string]any{"program": a.name})
+			}
+		}()
 		for _, b := range pcombs {
 			name := b.name + "∘" + a.name
 			ref := func(s []int) []int { return b.ref(a.ref(s)) }
